@@ -173,6 +173,10 @@ static void mk(pstm_int *x, const uel_t *e, int neg, int extra)
     {
         alloc = 1;
     }
+    if (alloc > PSTM_MAX_SIZE)
+    {
+        alloc = PSTM_MAX_SIZE;
+    }
     if (pstm_init_size(NULL, x, (psSize_t) alloc) != PSTM_OKAY)
     {
         fprintf(stderr, "drv_c13: pstm_init_size(%d) failed\n", alloc);
@@ -193,6 +197,10 @@ static void mk_junk(pstm_int *x, int alloc, int used, int neg)
     if (alloc < 1)
     {
         alloc = 1;
+    }
+    if (alloc > PSTM_MAX_SIZE)
+    {
+        alloc = PSTM_MAX_SIZE;
     }
     if (used > alloc)
     {
